@@ -31,6 +31,96 @@ mod p18_fixedpoint;
 
 use common::{Ctx, Tier};
 
+const DEATH_KEY: &str = "the engine process dies (abort / stack overflow / kill) on this case";
+
+fn run_property(prop: &str, ctx: &Ctx) {
+        match prop {
+            "C01" => p01_roundtrip::run(ctx),
+            "C02" => p02_refcodec::run(ctx),
+            "C03" => p03_nocrash::run(ctx),
+            "C04" => p04_consume::run(ctx),
+            "C05" => p05_prefix::run(ctx),
+            "C06" => p06_resync::run(ctx),
+            "C07" => p07_reader::run(ctx),
+            "C08" => p08_stream::run(ctx),
+            "C09" => p09_filter::run(ctx),
+            "C15" => p15_lengths::run(ctx),
+            "C10" => p10_stats::run(ctx),
+            "C11" => p11_fibex::run(ctx),
+            "C12" => p12_fibexfault::run(ctx),
+            "C13" => p13_construct::run(ctx),
+            "C14" => p14_codes::run(ctx),
+            "C19" => p19_zstring::run(ctx),
+            "C16" => p16_reserialise::run(ctx),
+            "C17" => p17_timestamp::run(ctx),
+            "C18" => p18_fixedpoint::run(ctx),
+            _ => {
+                eprintln!("unknown property {}", prop);
+                std::process::exit(2);
+            }
+        }
+}
+
+/// run `dltmc <prop> --range fam lo hi` as a child; true if it was killed by a signal / aborted
+fn child_dies(prop: &str, tier: Tier, fam: &str, lo: u64, hi: u64) -> bool {
+    let exe = std::env::current_exe().expect("current_exe");
+    let st = std::process::Command::new(exe)
+        .args([prop, "--tier", tier.name(), "--range", fam, &lo.to_string(), &hi.to_string()])
+        .env("DLTMC_THREADS", "1")
+        .env_remove("DLTMC_CRUMBS")
+        .stdout(std::process::Stdio::null())
+        .stderr(std::process::Stdio::null())
+        .status();
+    match st {
+        Ok(s) => s.code().map(|c| c != 0).unwrap_or(true),
+        Err(_) => false,
+    }
+}
+
+/// The engine died without a verdict: bisect the index ranges that were in flight (breadcrumbs) in
+/// child processes; a case that kills the process every time is a violation with a replay file.
+fn triage(prop: &str, tier: Tier, crumbs: &str) -> i32 {
+    let text = std::fs::read_to_string(crumbs).unwrap_or_default();
+    let mut found: Vec<(String, u64)> = vec![];
+    for line in text.lines() {
+        let parts: Vec<&str> = line.split('\t').collect();
+        if parts.len() != 3 {
+            continue;
+        }
+        let (fam, mut lo, mut hi) = (parts[0].to_string(), parts[1].parse::<u64>().unwrap_or(0), parts[2].parse::<u64>().unwrap_or(0));
+        if hi <= lo || !child_dies(prop, tier, &fam, lo, hi) {
+            continue;
+        }
+        while hi - lo > 1 {
+            let mid = lo + (hi - lo) / 2;
+            if child_dies(prop, tier, &fam, lo, mid) {
+                hi = mid;
+            } else {
+                lo = mid;
+            }
+        }
+        // the same single case must kill the process twice more
+        if child_dies(prop, tier, &fam, lo, lo + 1) && child_dies(prop, tier, &fam, lo, lo + 1) {
+            found.push((fam, lo));
+        }
+    }
+    if found.is_empty() {
+        println!("MACHINERY: the engine process died and no single case reproduces it; no verdict");
+        return 2;
+    }
+    let dir = common::verif_dir();
+    std::fs::create_dir_all(format!("{}/replays", dir)).ok();
+    for (fam, idx) in &found {
+        let is_trace = fam.ends_with(".trace");
+        let path = format!("{}/replays/{}-death-{}-{}.json", dir, prop, fam.replace(['.', '/'], "_"), idx);
+        let body = serde_json::json!({"property": prop, "tier": tier.name(), "family": fam, "index": idx, "key": DEATH_KEY, "description": format!("the engine process dies while dlt-core handles case {} of family {}{}", idx, fam, if is_trace { " (trace pass: index counts trace-pass cases)" } else { "" })});
+        std::fs::write(&path, serde_json::to_string_pretty(&body).unwrap()).ok();
+        println!("VIOLATION property={} replay={}", prop, path);
+        println!("  family={} index={} key={}", fam, idx, DEATH_KEY);
+    }
+    1
+}
+
 fn main() {
     common::install_panic_hook();
     let args: Vec<String> = std::env::args().collect();
@@ -67,6 +157,8 @@ fn main() {
         _ => Tier::Quick,
     };
     let mut replay: Option<serde_json::Value> = None;
+    let mut range: Option<(String, u64, u64)> = None;
+    let mut triage_file: Option<String> = None;
     let mut i = 2;
     let mut rest: Vec<String> = vec![];
     while i < args.len() {
@@ -95,6 +187,17 @@ fn main() {
                 replay = Some(v);
                 i += 1;
             }
+            "--range" => {
+                let fam = args.get(i + 1).expect("--range family lo hi").clone();
+                let lo: u64 = args.get(i + 2).and_then(|x| x.parse().ok()).expect("lo");
+                let hi: u64 = args.get(i + 3).and_then(|x| x.parse().ok()).expect("hi");
+                range = Some((fam, lo, hi));
+                i += 3;
+            }
+            "--triage" => {
+                triage_file = Some(args.get(i + 1).expect("--triage <crumbs file>").clone());
+                i += 1;
+            }
             "--worker" => {
                 if prop == "C12" {
                     p12_fibexfault::worker_main();
@@ -108,34 +211,34 @@ fn main() {
         "C12" => "fault_enumeration",
         _ => "model_checking",
     };
+    if let Some(f) = triage_file {
+        std::process::exit(triage(&prop, tier, &f));
+    }
+    // replaying a recorded process death: run the case in a child process and report
+    if let Some(rp) = &replay {
+        if rp["key"].as_str() == Some(DEATH_KEY) {
+            let fam = rp["family"].as_str().unwrap_or("").to_string();
+            let idx = rp["index"].as_u64().unwrap_or(0);
+            let died = child_dies(&prop, tier, &fam, idx, idx + 1);
+            if died {
+                println!("VIOLATION property={} replay=(replayed)", prop);
+                println!("  family={} index={} key={}", fam, idx, DEATH_KEY);
+                std::process::exit(1);
+            }
+            println!("[{}] replay: the recorded case does NOT kill the process on this tree", prop);
+            std::process::exit(0);
+        }
+    }
     let mut ctx = Ctx::new(&prop, tier, level);
     ctx.replay = replay;
+    if range.is_some() {
+        ctx.range = range;
+        // no evidence, no verdict: the parent only looks at whether this process survives
+        let _ = std::panic::catch_unwind(std::panic::AssertUnwindSafe(|| run_property(&prop, &ctx)));
+        std::process::exit(0);
+    }
     let r = std::panic::catch_unwind(std::panic::AssertUnwindSafe(|| {
-        match prop.as_str() {
-            "C01" => p01_roundtrip::run(&ctx),
-            "C02" => p02_refcodec::run(&ctx),
-            "C03" => p03_nocrash::run(&ctx),
-            "C04" => p04_consume::run(&ctx),
-            "C05" => p05_prefix::run(&ctx),
-            "C06" => p06_resync::run(&ctx),
-            "C07" => p07_reader::run(&ctx),
-            "C08" => p08_stream::run(&ctx),
-            "C09" => p09_filter::run(&ctx),
-            "C15" => p15_lengths::run(&ctx),
-            "C10" => p10_stats::run(&ctx),
-            "C11" => p11_fibex::run(&ctx),
-            "C12" => p12_fibexfault::run(&ctx),
-            "C13" => p13_construct::run(&ctx),
-            "C14" => p14_codes::run(&ctx),
-            "C19" => p19_zstring::run(&ctx),
-            "C16" => p16_reserialise::run(&ctx),
-            "C17" => p17_timestamp::run(&ctx),
-            "C18" => p18_fixedpoint::run(&ctx),
-            _ => {
-                eprintln!("unknown property {}", prop);
-                std::process::exit(2);
-            }
-        }
+        run_property(&prop, &ctx);
         ctx.finish()
     }));
     match r {
